@@ -106,7 +106,9 @@ class NetworkManager(Manager):
         self._sanity_check()
 
     def get_active_peers(self) -> List[ConnectedRemotePeer]:
-        return [p for p in self.connected_peers.values() if p.hello_sent and p.hello_received]
+        # list(): this is also called from other threads (the miner broadcasts and prints statistics) while the network thread
+        # connects and disconnects peers; iterating over the live dict would raise "dictionary changed size during iteration".
+        return [p for p in list(self.connected_peers.values()) if p.hello_sent and p.hello_received]
 
     def broadcast_block(self, block: Block) -> None:
         self.local_peer.logger.info("%15s ChainManager.broadcast_block(%s)" % ("", human(block.hash())))
